@@ -825,6 +825,9 @@ def series_computation(
     }
 
     def del_(series_name, index: int) -> None:
+        if tuple(index[2:]) == zeroth_order:
+            # The zeroth order may hold start values, which cannot be recomputed.
+            return
         series[series_name].pop(index, None)
         linear_operator_series[series_name].pop(index, None)
 
